@@ -308,6 +308,33 @@ def check(ctx):
                detail="; ".join(f"line {nd.lineno}: patience <- {short(v, 60)}" for nd, v in bad_w),
                node=bad_w[0][0] if bad_w else None,
                stmt="caller's stopper rewritten: " + "; ".join(pretty(v)[:60] for _, v in bad_w))
+        # documented: "If None [no validation model], no early stopping is conducted" --
+        # the stopper that drives the loop then has patience = max_iter
+        st_t = ro.env.vars.get("stopper")
+        ok_noes = False
+        if st_t is not None and st_t[0] == "phi" and st_t[1] == (
+                "cmp", "is", n("model_validation"), c(None)):
+            tb, fb = st_t[2], st_t[3]
+            if is_call(tb, "dataclasses.replace") and tb[2] == (fb,):
+                ok_noes = dict(tb[3]).get("patience") == ("a", fb, "max_iter")
+            elif is_call(tb, "liesel.goose.optim.Stopper"):
+                ok_noes = kw(tb, "patience", 1) == ("a", fb, "max_iter") \
+                    and kw(tb, "max_iter", 0) == ("a", fb, "max_iter")
+        ctx.ob("C20.R2", of, "without a validation model the loop runs with patience = "
+                             "max_iter (documented: no early stopping), with the user's "
+                             "stopper otherwise", ok_noes, unproven=st_t is None or st_t[0] != "phi",
+               detail=short(st_t or (), 200), stmt="no early stopping without validation model")
+        # the documented defaults
+        dflt = {a.arg: d for a, d in zip(of.node.args.args[-len(of.node.args.defaults):],
+                                         of.node.args.defaults)}
+        dflt.update({a.arg: d for a, d in zip(of.node.args.kwonlyargs, of.node.args.kw_defaults)
+                     if d is not None})
+        want_d = {"restore_best_position": True, "save_position_history": True}
+        got_d = {k: getattr(dflt.get(k), "value", "?") for k in want_d}
+        ctx.ob("C20.R2", of, "restore_best_position and save_position_history default to True "
+                             "(the returned position is the best of the patience window unless "
+                             "the user opts out)", got_d == want_d, detail=str(got_d),
+               stmt=f"defaults {got_d}")
         # the user's patience is restored before ibest is computed
         pat_stores = [(val_, node) for loc, val_, node, _ in ro.stores
                       if loc[0] == "a" and loc[2] == "patience"]
